@@ -292,7 +292,7 @@ func lenDelimTooLong(p []byte, o int) bool {
 
 func lemma_varint_inverse(p []byte, o int, v uint64) {}
 func lemma_zigzag_inverse(x32 int32, x64 int64)      {}
-func lemma_lendelim(p []byte, o int, l int) {}
+func lemma_lendelim(p []byte, o int, l int)          {}
 
 // ---- one field: key followed by a payload whose shape the wire type fixes.  This is the
 // reference wire-format parser step shared by Skip (C02), lazyproto (C13), protodump (C20).
